@@ -5,7 +5,7 @@ COMMON = [
     "runtime monitoring: the verdict covers only the executions produced by this run's workloads",
 ]
 
-HOOK_COMMITS = ["3a5cfdb", "3d9cea6"]
+HOOK_COMMITS = ["3a5cfdb", "3d9cea6", "aa3025e"]
 
 NOT_APPLICABLE = {}
 
@@ -73,5 +73,13 @@ PROPS = {
         "level_note": "trusted: refmodel::parse_datetime (strict ABNF + range rules, leap years, second 60 allowed)",
         "rule": "cases: lattice strings (exhaustive), random crosses of lattice fields, rendered valid date-times in every spelling, 1-2 step mutants over the alphabet 0-9 - : . + T t Z z space; printed values from the lattices, from parsing, and from struct literals with in-range fields. distinct = string / value hash; all non-trivial",
         "assumptions": COMMON + ["strings with a leading or trailing blank are compared only between Datetime::from_str and the grammar (inside a document the blank is not part of the token)"],
+    },
+    "C05": {
+        "claimed": True,
+        "technique": "process-level stack monitor: every nesting recipe is executed by a child process on a 2 MiB thread in a debug and a release build, stage by stage; hook H2 reports the parser's own recursion counter next to the measured tree depth",
+        "level_text": "nesting recipes (arrays, inline tables, dotted keys at top level and inside inline tables, header and array-of-tables paths; singly, additively and multiplicatively, at depths 1..5000) are parsed, measured, printed, debug-printed, cloned, dropped, re-parsed and deserialized by child processes on a 2 MiB stack in debug and release builds; the parent observes exit status and last stage. Accepted documents must have container depth <= 320; single constructs nested <= 79 must be accepted",
+        "level_note": "trusted: the child-process monitor and the iterative depth measurement; D = 4 x LIMIT is the concrete 'small constant'",
+        "rule": "cases: 54 single-construct recipes (6 constructs x depths 1,2,40,78,79,80,81,300,5000), ~250 pair recipes (multiplicative inline x dotted, additive pairs at depths 2..300), random compositions of up to 4 constructs; each recipe runs in 2 build profiles x ~16 stages. distinct = recipe string; all non-trivial",
+        "assumptions": COMMON + ["inputs are kept below 64 KiB"],
     },
 }
